@@ -464,6 +464,7 @@ def run_mutants(pid):
     if os.environ.get("VERIF_NO_MUTANTS") or os.environ.get("VERIF_REPO", "/repo") != "/repo":
         return {"applied": 0, "killed": 0, "survivors": [], "note": "skipped (nested run)"}
     killed, surv, detail = 0, [], {}
+    os.environ.setdefault("SEED_INNER_JOBS", "16")        # the seeds of one property run one after the other: each may use every core
     for sid in seeds:
         _, r = sm.run_one(sid)
         detail[sid] = {"exit": r.get("exit"), "failed_obligations": r.get("failed_obligations", [])[:3], "error": r.get("error")}
